@@ -12,7 +12,8 @@ Verdict(r) ==
   IF r.batch THEN (IF BatchOK(r.outcomes) THEN "ok" ELSE "NoCrash")
   ELSE IF r.outcome = "harness-error" THEN "harness:" \o r.detail
   ELSE IF ~NoCrash(r.outcome) THEN "NoCrash"
-  ELSE IF r.case.t = "alias" /\ r.outcome # "timeout"
+  ELSE IF r.case.t = "alias" /\ r.outcome = "timeout" THEN "AliasTerminates"   \* (after one retry with 6x the limit)
+  ELSE IF r.case.t = "alias"
           /\ ~AliasOK(r.case.defs, r.case.expr, r.case.lang, r.outcome, r.kind) THEN "AliasOK"
   ELSE "ok"
 
